@@ -74,7 +74,7 @@ pub fn family(name: &str) -> Family {
             a.extend(["A::x", "A::x && H::lo", "H::lo", "*"].iter().map(|p| format!("rekey {p}")));
             a.extend(["A::x", "A::x && H::lo", "H::lo", "*"].iter().map(|p| format!("prune {p}")));
             a.extend(refresh3[..4].iter().map(|s| s.to_string()));
-            a.extend(["del A::x", "del H::lo", "del H::hi", "del-dim A", "update"].iter().map(|s| s.to_string()));
+            a.extend(["del A::x", "del H::lo", "del H::hi", "del-dim A", "add A::z classic", "add H::mid classic after lo", "update"].iter().map(|s| s.to_string()));
             Family {
                 name: "rotdel",
                 init: w_init(true),
@@ -89,12 +89,27 @@ pub fn family(name: &str) -> Family {
         }
         "edit" => Family {
             name: "edit",
-            init: w_init(false),
+            // three hierarchy levels and a key for the middle one: deletions below / above it
+            // exercise order-preserving removal and name -> id lookups after a removal
+            init: ops(&[
+                "add-dim H hierarchy",
+                "add H::lo classic",
+                "add H::hi classic after lo",
+                "add H::mid classic after lo",
+                "add-dim A anarchy",
+                "add A::x classic",
+                "add A::y classic",
+                "update",
+                "keygen A::x && H::hi",
+                "keygen A::y",
+                "keygen H::mid",
+            ]),
             alphabet: ops(&[
                 "add A::z classic",
                 "add A::z hybrid",
-                "add H::mid classic after lo",
+                "add H::top classic after hi",
                 "add H::bot classic",
+                "del H::mid",
                 "add-dim B anarchy",
                 "add B::u classic",
                 "del A::x",
@@ -117,11 +132,12 @@ pub fn family(name: &str) -> Family {
                 "refresh 1 drop",
                 "refresh 2 keep",
                 "refresh 2 drop",
+                "refresh 3 keep",
             ]),
-            enc_menu: vec!["A::x", "A::y", "A::z", "A::w", "H::lo", "H::hi", "H::mid", "H::bot", "H::l0", "B::u", "A::x && H::hi", "A::y && H::lo", "A::z && H::hi", "A::z && H::bot", "*"],
+            enc_menu: vec!["A::x", "A::y", "A::z", "A::w", "H::lo", "H::hi", "H::mid", "H::bot", "H::top", "H::l0", "B::u", "A::x && H::hi", "A::y && H::lo", "A::z && H::mid", "A::z && H::bot", "*"],
             tags: Tags { open: "C03.a", deny: "C03.a" },
             rt_bound: 0,
-            max_usks: 3,
+            max_usks: 4,
             rt_encs: false,
             probes: &[],
         },
@@ -335,6 +351,8 @@ pub struct Outcome {
 /// Runs `hist` then `op` (checked) on a fresh world.
 pub fn run_transition(fam: &Family, hist: &[Op], op: &Op) -> Option<Outcome> {
     let mut w = build(fam, hist);
+    // the explorer only expands prefixes whose failures were benign (see BENIGN)
+    w.failures.retain(|f| !BENIGN.iter().any(|b| f.clause.starts_with(b)));
     if !w.failures.is_empty() {
         // a prefix that was clean when first explored must stay clean
         return Some(Outcome { key: String::new(), failures: std::mem::take(&mut w.failures).into_iter().map(|mut f| { f.msg = format!("(while replaying the prefix) {}", f.msg); f }).collect(), ok: false, counts: w.counts.clone(), partial_chains: false });
@@ -372,6 +390,9 @@ pub fn run_transition(fam: &Family, hist: &[Op], op: &Op) -> Option<Outcome> {
 fn abstract_key(w: &World) -> String {
     state_key_opt(w, 0, false)
 }
+
+/// Clause prefixes whose failure does not break the model/implementation lock-step.
+const BENIGN: [&str; 12] = ["C13.e", "C13.l", "C13.d", "C13.o", "C17.", "C11.", "C16.", "C01.x", "C03.a", "C04.a", "C04.b", "C06.c"];
 
 /// Which listed open finding (if any) explains this failure.
 pub fn classify(f: &Failure) -> Option<&'static str> {
@@ -442,7 +463,24 @@ pub fn explore(run: &mut Run, fam: &Family, max_depth: usize, cap_secs: f64, own
                 break;
             }
             let jobs: Vec<(usize, usize)> = (0..part.len()).flat_map(|i| (0..fam.alphabet.len()).map(move |j| (i, j))).collect();
-            let results = par_map(&jobs, |_, (i, j)| run_transition(fam, &part[*i], &fam.alphabet[*j]));
+            let results = par_map(&jobs, |k, (i, j)| {
+                let out = run_transition(fam, &part[*i], &fam.alphabet[*j]);
+                // determinism self-check on every 64th transition: a second execution on fresh
+                // objects (fresh randomness, fresh hash orders) must reach the same canonical
+                // state with the same clause verdicts
+                if k % 64 == 0 {
+                    let again = run_transition(fam, &part[*i], &fam.alphabet[*j]);
+                    let same = match (&out, &again) {
+                        (None, None) => true,
+                        (Some(a), Some(b)) => a.key == b.key && a.ok == b.ok && a.failures.iter().map(|f| &f.clause).collect::<Vec<_>>() == b.failures.iter().map(|f| &f.clause).collect::<Vec<_>>(),
+                        _ => false,
+                    };
+                    if !same {
+                        machinery(&format!("non-deterministic transition: [{}] then {}", part[*i].iter().map(|o| o.to_string()).collect::<Vec<_>>().join("; "), fam.alphabet[*j]));
+                    }
+                }
+                out
+            });
             for ((i, j), out) in jobs.iter().zip(results) {
                 let Some(out) = out else { continue };
                 st.transitions += 1;
@@ -456,8 +494,17 @@ pub fn explore(run: &mut Run, fam: &Family, max_depth: usize, cap_secs: f64, own
                 if !out.failures.is_empty() {
                     if handle_failures(run, fam, &part[*i], Some(op), &out.failures, owned, &mut st) {
                         stop = true;
+                        continue;
                     }
-                    continue; // diverged or tainted: not expanded
+                    // A state is abandoned when model and implementation have diverged (or a
+                    // listed finding fired). Failures of clauses owned by other properties that
+                    // leave the lock-step intact (serialisation equality, tracing relation,
+                    // flavours, decaps outcomes) do not stop the exploration: their consequences
+                    // for THIS property are still to be seen.
+                    let benign = out.failures.iter().all(|f| !owned.iter().any(|p| f.clause.starts_with(p)) && classify(f).is_none() && BENIGN.iter().any(|b| f.clause.starts_with(b)));
+                    if !benign {
+                        continue;
+                    }
                 }
                 outcome_kinds.insert(hash128(format!("{op}|{}", out.ok).as_bytes()));
                 let h = hash128(out.key.as_bytes());
